@@ -26,7 +26,7 @@ ASSUMPTIONS = ["after a build that failed with a cycle the engine is restarted (
 
 
 def budget(tier):
-    return 4000 if tier == "quick" else 200000
+    return 25000 if tier == "quick" else 500000
 
 
 @st.composite
